@@ -164,13 +164,19 @@ NEG = [
 ]
 
 
+# millions of states: more workers, started first
+BIG = ("Shutdown_exh_big.cfg", "PoolAgg_exh_big.cfg", "PoolAgg_exh.cfg", "PoolAgg_exh_block.cfg", "PoolAgg_live.cfg",
+       "PoolAgg_neg_ooa_complete.cfg")
+
+
 def design(thorough):
     pos = [(m, c) for m, c, q in POS if q or thorough]
     neg = [(m, c) for m, c, q in NEG if q or thorough]
     vlib.spec_copy()
 
     def one(mc):
-        r = vlib.tlc(mc[0], mc[1], workers=2, heap="3g", timeout=3000, deadlock=False)
+        big = mc[1] in BIG
+        r = vlib.tlc(mc[0], mc[1], workers=6 if big else 2, heap="6g" if big else "3g", timeout=3000, deadlock=False)
         # vlib's parser knows 'Temporal properties were violated'; this TLC prints 'Temporal property X was violated'
         # (additive helper kept here because lib/vlib.py is shared)
         m = re.search(r"Temporal property (\S+) was violated", r.out)
@@ -181,7 +187,7 @@ def design(thorough):
     states = trans = 0
     per = {}
     # the long ones first
-    order = sorted(pos + neg, key=lambda mc: (0 if mc[1].startswith(("Shutdown_exh", "PoolAgg_exh", "Shutdown_live", "PoolAgg_live")) else 1))
+    order = sorted(pos + neg, key=lambda mc: (0 if mc[1] in BIG else 1 if mc[1].startswith(("Shutdown_exh", "PoolAgg_exh", "Shutdown_live", "PoolAgg_live")) else 2))
     with concurrent.futures.ThreadPoolExecutor(max_workers=6) as ex:
         for (mod, cfg), r in ex.map(one, order):
             if (mod, cfg) in pos:
